@@ -58,6 +58,21 @@ func propC11(w *World, r *Report) {
 				return "headers.HeaderInfo." + getter + "(" + pl(i) + ")"
 			}
 		}
+		// ... or through the like-named field of a plain struct parameter of the repository's own that bundles them (what
+		// the call sites put into it is checked end to end at the construction sites below)
+		for i, p := range ctor.Params {
+			n, isN := p.Type().(*types.Named)
+			pst, isS := p.Type().Underlying().(*types.Struct)
+			if !isN || !isS || n.Obj().Pkg() == nil || !strings.HasPrefix(n.Obj().Pkg().Path(), modPath) {
+				continue
+			}
+			for k := 0; k < pst.NumFields(); k++ {
+				fname := pst.Field(k).Name()
+				if fname == field || (field == "CameraSerial" && fname == "Serial") {
+					return typeShort(p.Type()) + "." + fname + "@" + pl(i)
+				}
+			}
+		}
 		want := map[string]int{"Brand": 2, "Model": 3, "CameraSerial": 4, "Firmware": 5}[field]
 		if want < len(ctor.Params) {
 			return pl(want)
@@ -535,7 +550,7 @@ func checkConfigMapping(w *World, r *Report) {
 			"PreviewSecs": "config.ThermalRecorder.PreviewSecs@alloc:config.ThermalRecorder", "ConstantRecorder": "config.ThermalRecorder.ConstantRecorder@alloc:config.ThermalRecorder"}},
 	}
 	for _, tb := range tables {
-		fn := w.Func(tb.pkg, tb.fn)
+		fn := w.LoaderFunc(tb.pkg, tb.fn)
 		if fn == nil {
 			r.Unknown("H3", tb.pkg+"."+tb.fn, "-", "not found")
 			continue
@@ -552,8 +567,12 @@ func checkConfigMapping(w *World, r *Report) {
 				// the section decoded straight into the field (Unmarshal(key, &conf.K)) instead of through a local
 				for _, b := range fn.Blocks {
 					for _, in := range b.Instrs {
-						if c, ok := in.(*ssa.Call); ok && calleeName(c) == "config.Config.Unmarshal" {
-							if fa, ok := unwrapIface(c.Call.Args[2]).(*ssa.FieldAddr); ok && structOf(fa.X.Type()) != nil && structOf(fa.X.Type()).Field(fa.Field).Name() == k && typeIs(fa.X.Type(), tb.typPkg, tb.typ) && "local:"+typeShort(fa.Type()) == tb.want[k] {
+						if c, ok := in.(*ssa.Call); ok {
+							_, tgt, isU := configUnmarshalArgs(w, c)
+							if !isU {
+								continue
+							}
+							if fa, ok := unwrapIface(tgt).(*ssa.FieldAddr); ok && structOf(fa.X.Type()) != nil && structOf(fa.X.Type()).Field(fa.Field).Name() == k && typeIs(fa.X.Type(), tb.typPkg, tb.typ) && "local:"+typeShort(fa.Type()) == tb.want[k] {
 								g = []string{tb.want[k]}
 							}
 						}
@@ -590,12 +609,16 @@ func checkConfigMapping(w *World, r *Report) {
 		for _, b := range fn.Blocks {
 			for _, in := range b.Instrs {
 				c, ok := in.(*ssa.Call)
-				if !ok || calleeName(c) != "config.Config.Unmarshal" {
+				if !ok {
+					continue
+				}
+				keyV, tgtV, isU := configUnmarshalArgs(w, c)
+				if !isU {
 					continue
 				}
 				n++
-				key, _ := constString(e.termOf(c.Call.Args[1]))
-				target := unwrapIface(c.Call.Args[2])
+				key, _ := constString(e.termOf(keyV))
+				target := unwrapIface(tgtV)
 				tn := typeShort(target.Type())
 				r.Check(wantKey[tn] == key && key != "", "H3", fn.Name()+": section \""+key+"\" is decoded into "+tn, w.InstrPos(c), "")
 			}
@@ -626,7 +649,7 @@ func checkParserSelection(w *World, r *Report, ci *connInfo) {
 		return
 	}
 	e := newTermEnv(w)
-	paths, complete := enumPaths(e, sel, 64)
+	outs, complete := selectorOutcomes(e, sel)
 	if !complete {
 		r.Unknown("H5", "frameParser", w.Pos(sel.Pos()), "not loop-free")
 		return
@@ -644,16 +667,16 @@ func checkParserSelection(w *World, r *Report, ci *connInfo) {
 	brand, model := e.termOf(sel.Params[0]).String(), e.termOf(sel.Params[1]).String()
 	flir := eqStr(`"flir"`, brand)
 	m3, m35, boson := eqStr(cval("Model"), model), eqStr(cval("Model35"), model), eqStr(`"boson"`, model)
-	for i, p := range paths {
-		ret := p.Term(e, p.Ret.Results[0]).String()
-		isFlir := hasGuard(p.Conds, flir)
+	for i, o := range outs {
+		ret := o.ret
+		isFlir := hasCond(o.conds, flir)
 		var want string
 		switch {
 		case !isFlir:
 			want = "nil"
-		case hasGuard(p.Conds, m3) || hasGuard(p.Conds, m35):
+		case hasCond(o.conds, m3) || hasCond(o.conds, m35):
 			want = "func:github.com/TheCacophonyProject/lepton3.ParseRawFrame"
-		case hasGuard(p.Conds, boson):
+		case hasCond(o.conds, boson):
 			want = "func:<the repository's own Boson parser>"
 			if strings.HasPrefix(ret, "func:"+modPath+"/cmd/thermal-recorder.") {
 				want = ret // identified structurally; its little-endian decoding and border predicate are C13.B1's
@@ -661,19 +684,25 @@ func checkParserSelection(w *World, r *Report, ci *connInfo) {
 		default:
 			want = "nil"
 		}
-		r.Check(ret == want, "H5", fmt.Sprintf("parser selection path %d [%s]", i+1, strings.Join(guardStrings(p.Conds), " ∧ ")), w.InstrPos(p.Ret), ret)
+		cs := append([]string{}, o.conds...)
+		sort.Strings(cs)
+		r.Check(ret == want, "H5", fmt.Sprintf("parser selection path %d [%s]", i+1, strings.Join(cs, " ∧ ")), w.InstrPos(o.pos), ret)
 		// every condition is one of the four specified tests
-		for _, g := range p.Conds {
-			s := g.Cond.String()
-			if g.Cond.Op == "ne" {
-				s = tnot(g.Cond).String()
+		for _, s := range o.conds {
+			if strings.HasPrefix(s, "ne(") {
+				s = "eq(" + strings.TrimPrefix(s, "ne(")
 			}
-			r.Check(s == flir || s == m3 || s == m35 || s == boson, "H5", "selection only tests brand == flir and model in {lepton3, lepton3.5, boson}", w.InstrPos(g.If), s)
+			r.Check(s == flir || s == m3 || s == m35 || s == boson, "H5", "selection only tests brand == flir and model in {lepton3, lepton3.5, boson}", w.InstrPos(o.pos), s)
 		}
 	}
+	paths := outs
 	r.Check(len(paths) == 5, "H5", "five selection outcomes", w.Pos(sel.Pos()), fmt.Sprint(len(paths)))
 	// the handler refuses an unknown camera before building anything and passes the selected parser on
 	he := newTermEnv(w)
+	if he.forceInline == nil {
+		he.forceInline = map[*ssa.Function]bool{}
+	}
+	he.forceInline[sel] = false // the selection stays a call, however small its body is
 	for _, b := range ci.setup.Blocks {
 		for _, in := range b.Instrs {
 			if c, ok := in.(*ssa.Call); ok && c.Call.StaticCallee() != nil && c.Call.StaticCallee().Name() == "NewMotionProcessor" {
